@@ -160,9 +160,13 @@ def rule_rowrank(ctx):
     f = ctx.prog.func(f"{PC}:to_matched_score", "ROWRANK")
     dicts = {}
     for n in own_nodes(f.node):
+        val = None
         if isinstance(n, ast.Assign) and isinstance(n.value, ast.Call) and norm(n.value.func) == "dict" and n.value.args \
-                and isinstance(n.value.args[0], ast.GeneratorExp) and isinstance(n.value.args[0].elt, ast.Tuple):
+                and isinstance(n.value.args[0], (ast.GeneratorExp, ast.ListComp)) and isinstance(n.value.args[0].elt, ast.Tuple) and len(n.value.args[0].elt.elts) == 2:
             val = n.value.args[0].elt.elts[1]
+        elif isinstance(n, ast.Assign) and isinstance(n.value, ast.DictComp):
+            val = n.value.value  # the same table written as a dict comprehension
+        if val is not None:
             mask = isinstance(val, ast.Subscript) and isinstance(val.slice, ast.Compare)
             dicts[norm(n.targets[0])] = 1 if mask else 0
     def from_dicts(e):
